@@ -185,6 +185,80 @@ def explore_history(item):
     return ctx, out
 
 
+# ----------------------------------------------------------------------------- aliasing between handles
+def run_alias(mode, mp, rp, tags, split, values):
+    """mode 'copy': candidates [0, split) go to e1, then e2 = Entry(e1.value(), e1.infos(), ...) receives the rest -> returns both summaries.
+    mode 'proxies': two proxies of the same not-yet-written cell are kept and used alternately -> returns the cell's summary read afresh."""
+    cands = [Candidate(v, t) for v, t in zip(values, tags)]
+    if mode == "copy":
+        e1 = Entry(MP[mp], RP[rp])
+        for c in cands[:split]:
+            e1.update(c)
+        e2 = Entry(e1.value(), e1.infos(), MP[mp], RP[rp])
+        for c in cands[split:]:
+            e2.update(c)
+        return (e1.value(), set(e1.infos())), (e2.value(), set(e2.infos()))
+    t = Table((DictDimension(), ListDimension(2)), MP[mp], RP[rp])
+    p1, p2 = t["k"][1], t["k"][1]
+    for i, c in enumerate(cands):
+        (p1 if i % 2 == 0 else p2).update(c)
+    cell = t["k"][1]
+    return (cell.value(), set(cell.infos())), (p1.value(), set(p1.infos()))
+
+
+def explore_alias(item):
+    mode, mp, rp, tags, split = item["mode"], item["mp"], item["rp"], item["tags"], item["split"]
+    n = len(tags)
+    ctx = Ctx([(f"x{i}", "Int", None) for i in range(n)], max_paths=5000, budget_s=120)
+    xs = [ctx.var(f"x{i}") for i in range(n)]
+    out = dict(obligations=0, discharged=0, fails=[])
+    for _ in ctx.paths():
+        (v1, i1), (v2, i2) = run_alias(mode, mp, rp, tags, split, xs)
+        if mode == "copy":
+            discharge(ctx, history_obligations(ctx, mp, rp, xs[:split], tags[:split], v1, i1), out, lambda: f"source entry after the copy was updated: value={v1} infos={sorted(i1)}")
+            discharge(ctx, history_obligations(ctx, mp, rp, xs, tags, v2, i2), out, lambda: f"copied entry: value={v2} infos={sorted(i2)}")
+        else:
+            discharge(ctx, history_obligations(ctx, mp, rp, xs, tags, v1, i1), out, lambda: f"cell read afresh: value={v1} infos={sorted(i1)}")
+            discharge(ctx, history_obligations(ctx, mp, rp, xs, tags, v2, i2), out, lambda: f"cell read through the first kept proxy: value={v2} infos={sorted(i2)}")
+        if out["fails"]:
+            break
+    return ctx, out
+
+
+def concrete_alias_fails(mode, mp, rp, tags, split, vals):
+    (v1, i1), (v2, i2) = run_alias(mode, mp, rp, tags, split, vals)
+
+    def chk(values, tgs, value, infos, what):
+        if not values:
+            return [] if (isinf(value) and not infos) else [f"{what}: never written but reads {value} {infos}"]
+        opt = min(values) if mp == "min" else max(values)
+        if isinf(value) or value != opt:
+            return [f"{what}: value {value} != optimum {opt}"]
+        opt_tags = {t for v, t in zip(values, tgs) if v == opt and t}
+        if rp == "none" and infos:
+            return [f"{what}: tags under none"]
+        if rp == "all" and infos != opt_tags:
+            return [f"{what}: tags {sorted(infos)} != optimal tags {sorted(opt_tags)}"]
+        if rp == "any" and not ((not opt_tags and not infos) or (len(infos) == 1 and infos <= opt_tags)):
+            return [f"{what}: tags {sorted(infos)} not exactly one of {sorted(opt_tags)}"]
+        return []
+
+    if mode == "copy":
+        return chk(vals[:split], tags[:split], v1, i1, "source entry") + chk(vals, tags, v2, i2, "copied entry")
+    return chk(vals, tags, v1, i1, "cell read afresh") + chk(vals, tags, v2, i2, "cell read through a kept proxy")
+
+
+def alias_items():
+    for mode in ("copy", "proxies"):
+        for mp in MP:
+            for rp in RP:
+                for n in (2, 3):
+                    for tags in itertools.product(TAGS, repeat=n):
+                        for split in ((1, 2) if mode == "copy" else (0,)):
+                            if split < n:
+                                yield {"kind": "alias", "mode": mode, "mp": mp, "rp": rp, "tags": list(tags), "split": split}
+
+
 def concrete_history_fails(mp, rp, tags, batches, wi, vals, watched=False):
     value, infos, others_ok = run_history(mp, rp, tags, batches, WHERES[wi], vals, watched)
     fails = []
@@ -378,6 +452,8 @@ def worker(item):
             ctx, out = explore_step(item)
         elif kind == "history":
             ctx, out = explore_history(item)
+        elif kind == "alias":
+            ctx, out = explore_alias(item)
         else:
             ctx, out = explore_combine(item)
     except Inconclusive as e:
@@ -392,6 +468,10 @@ def worker(item):
             cf = concrete_step_fails(item["mp"], item["rp"], item["vkind"], item["S"], item["tag"], vals)
             sig = {"kind": "step", "mp": item["mp"], "rp": item["rp"], "tag_given": item["tag"] is not None,
                    "pre_tagged": bool(item["S"]), "clause": name}
+        elif kind == "alias":
+            vs = [vals[f"x{i}"] for i in range(len(item["tags"]))]
+            cf = concrete_alias_fails(item["mode"], item["mp"], item["rp"], item["tags"], item["split"], vs)
+            sig = {"kind": "alias", "item": item, "clause": name}
         elif kind == "history":
             vs = [vals[f"x{i}"] for i in range(len(item["tags"]))]
             cf = concrete_history_fails(item["mp"], item["rp"], item["tags"], item["batches"], item["where"], vs, item.get("watched", False))
@@ -413,6 +493,8 @@ def replay(data):
     item, vals = data["item"], data["values"]
     if item["kind"] == "step":
         cf = concrete_step_fails(item["mp"], item["rp"], item["vkind"], item["S"], item["tag"], vals)
+    elif item["kind"] == "alias":
+        cf = concrete_alias_fails(item["mode"], item["mp"], item["rp"], item["tags"], item["split"], [vals[f"x{i}"] for i in range(len(item["tags"]))])
     elif item["kind"] == "history":
         cf = concrete_history_fails(item["mp"], item["rp"], item["tags"], [list(b) for b in item["batches"]], item["where"],
                                     [vals[f"x{i}"] for i in range(len(item["tags"]))], item.get("watched", False))
@@ -471,6 +553,8 @@ def main(argv=None):
     hist, full_n, top_n, n_top = history_items(tier, seed)
     res, sk = R.run_sharded(worker, hist, budget)
     rep.add_results("bounded-histories", res, sk, exhaustive=False)
+    res, sk = R.run_sharded(worker, list(alias_items()), budget)
+    rep.add_results("aliasing: an entry built from another entry's value()/infos(); two kept proxies of one unwritten cell", res, sk, exhaustive=True)
     comb = list(combine_items())
     res, sk = R.run_sharded(worker, comb, budget)
     rep.add_results("combine", res, sk, exhaustive=True)
@@ -486,6 +570,7 @@ def main(argv=None):
                      f"1-3 dimensional list/dict tables{' (length ' + str(full_n) + ' on 2 placements)' if tier == 'quick' else ''}); {n_top} seeded histories of length {top_n}",
         "combine": "tag subsets of {a,b} per side allowed by the policy, symbolic values and symbolic pair weights, Entry and EntryProxy receivers "
                    "(never-written cells, tagged cells, and cells written with an untagged candidate)",
+        "aliasing": "histories of length 2-3 split between an entry and a copy built from its value()/infos(), or issued alternately through two kept proxies of one cell",
         "reads": "half of the multi-batch histories are 'watched': value/infos/info/iteration/len/is_infinite are read after every batch and must agree",
     }
     rep.assumptions = ["tags are truthy objects (the code treats falsy tags as absent)", "candidate values are finite (property quantifier); "
